@@ -11,12 +11,55 @@ from .. import sa, ctx as ctxmod, purity
 from .c01 import error_singletons
 
 
+def callback_attrs(c):
+    """{role: attribute of the grammar object} - the role of a bound callback is what the grammar actions use it for, not its
+    name: called from an action of a FUNCTION production -> call_function; of an expression production over the variable
+    sequence -> call_variable; of a cell production with one argument -> call_cell_value, with two -> call_range_value."""
+    cached = getattr(c, '_callback_attrs', None)
+    if cached is not None:
+        return cached
+    g = c.grammar
+    bound = set(attr for (cname, attr) in c.cg._callback_bindings)
+    votes = {}
+    for p in g.productions:
+        mf = g.action_funcs.get(p.funcname)
+        if mf is None:
+            continue
+        f = mf[1]
+        s_ = sa.self_name(f)
+        for n in walk_no_defs(f):
+            if isinstance(n, ast.Call) and isinstance(n.func, ast.Attribute) and isinstance(n.func.value, ast.Name) \
+                    and n.func.value.id == s_ and n.func.attr in bound:
+                role = None
+                if 'FUNCTION' in p.syms:
+                    role = 'call_function'
+                elif 'variable_sequence' in p.syms and p.name != 'variable_sequence':
+                    role = 'call_variable'
+                elif p.name == 'cell':
+                    role = 'call_cell_value' if len(n.args) == 1 else 'call_range_value' if len(n.args) == 2 else None
+                if role:
+                    votes.setdefault(role, {}).setdefault(n.func.attr, 0)
+                    votes[role][n.func.attr] += 1
+    out = {}
+    for role, v in votes.items():
+        out[role] = sorted(v.items(), key=lambda kv: -kv[1])[0][0]
+    try:
+        c._callback_attrs = out
+    except Exception:
+        pass
+    return out
+
+
 def callbacks(c):
-    """{keyword: function key} of the callbacks bound into the grammar parser."""
+    """{role: function key} of the callbacks bound into the grammar parser (roles: call_function, call_variable,
+    call_cell_value, call_range_value - see callback_attrs; other bound callbacks keep their attribute name)."""
     out = {}
     for (cname, attr), targets in c.cg._callback_bindings.items():
         for t in targets:
             out[attr] = t
+    for role, attr in callback_attrs(c).items():
+        if attr in out:
+            out[role] = out[attr]
     return out
 
 
